@@ -494,6 +494,12 @@ ensures grows(*old(context), *final(context)),
         ('let params = bind_typed_parameter_list(', 'before', A_('fresh_scope', 'subroutine-parameters-in-own-scope')),
         ('let return_type = match', 'before', A_('same_scopes', 'return-type-analysed-outside-subroutine-scope', 'C09,C07')),
         ('let def_name_symbol_id = context.new_binding(', 'before', A_('same_scopes', 'subroutine-name-bound-in-enclosing-scope-after-body')),
+        # ---- C13: declarations outside the global scope and a non-duration delay are reported, and nothing else is
+        ('            let name_str = if let Some(name_str) = q_decl.name() {', 'before', 'proof { assert(context.errs() == old(context).errs() + cond1(!old(context).global(), SemanticErrorKind::NotInGlobalScopeError)); }     //@C13:qubit-declaration-outside-global-scope'),
+        ('            let name_node = gate.name().unwrap();\n            // Here are three ways', 'before', 'proof { assert(context.errs() == old(context).errs() + cond1(!old(context).global(), SemanticErrorKind::NotInGlobalScopeError)); }     //@C13:gate-definition-outside-global-scope'),
+        ('let params = bind_typed_parameter_list(', 'before', 'proof { assert(context.errs() == old(context).errs() + cond1(!old(context).global(), SemanticErrorKind::NotInGlobalScopeError)); }     //@C13:subroutine-definition-outside-global-scope'),
+        ('            let duration =\n                expr_to_asg_texpr(delay_stmt.designator().unwrap().expr(), context).unwrap();', 'after', 'let ghost midd = *context;'),
+        ('            Some(asg::Stmt::Delay(asg::DelayStmt::new(', 'before', 'proof { assert(context.errs() == midd.errs() + cond1(!(duration.ty is Duration), SemanticErrorKind::IncompatibleTypesError)); }     //@C13:non-duration-delay-reported'),
         # ---- C09: the declared symbol carries exactly the declared type
         ('Some(asg::GateDefinition::new(gate_name_symbol_id, params, qubits, block).to_stmt())', 'before', '''proof {
     let b = context.trace().last();
